@@ -451,7 +451,11 @@ func (s *Session) close(w bool) error {
 	s.state.Unset(stateChannelValue)
 	s.state.Unset(stateChannelUpdated)
 	s.state.Unset(stateChannel)
-	if s.state.Set(stateClosing); !s.IsClient() {
+	if !s.state.trySet(stateClosing) {
+		// Another caller won the transition to closing and owns the shutdown.
+		return nil
+	}
+	if !s.IsClient() {
 		s.shutdown()
 		return nil
 	}
